@@ -35,11 +35,12 @@ pub fn c08_lot_add_sub_exact() {
 
 /// the even split of an all-outputs edict: q = amount / k, r = amount % k, and k*q + r = amount
 /// (what `allocate` hands out: r outputs get q+1, the rest q) - nothing lost to rounding.
-/// Symbolic 128-bit division does not terminate in CBMC; the divisor is case-split over 2, 3 and 7
-/// eligible outputs, the amount ranges over all u128.
+/// Symbolic 128-bit division does not terminate in CBMC; the divisor is fixed to 3
+/// eligible outputs (one 128-bit divider circuit; more do not fit the quick tier), the amount ranges over all u128.
 //# props: C08, C09
-//# kind: bounded(every amount; 2, 3 or 7 eligible outputs)
+//# kind: bounded(every amount; 3 eligible outputs)
 //# fns: index::lot::Lot::div, index::lot::Lot::rem
+//# timeout: 900
 #[cfg_attr(kani, kani::proof)]
 #[cfg_attr(kani, kani::unwind(2))]
 pub fn c08_lot_div_rem_partition() {
@@ -51,6 +52,6 @@ pub fn c08_lot_div_rem_partition() {
     assert!(q == a / $k && r == a % $k, "C08.lot.div_rem_are_u128_div_rem");
     assert!(q.checked_mul($k).and_then(|x| x.checked_add(r)) == Some(a), "C08.lot.split_loses_nothing");
   } )* } }
-  split!(2 3 7);
+  split!(3);
   assert!(Lot(a) == a && !(Lot(a) < a) && !(Lot(a) > a), "C08.lot.compares_as_u128");
 }
